@@ -22,7 +22,13 @@ rejuvenations, reads, availability tests and `ds.features` on any level.
   recipe, base/hit/miss, which cache entries were written, what the hash covered) is compared
   with the Lean model (`lean/Drive/C06.lean`) through the line protocol; recording proxies
   around `ds[...]`, `... in ds` and the configuration sections validate the hand-written
-  `declaredReads` / `reqFuncInfo` tables of the model against what the methods really access.
+  `declaredReads` / `reqFuncInfo` tables of the model against what the methods really access;
+* session 4: the read sets of the compute methods and requirement functions come from their
+  SOURCE (`harness/c06_ast.py`, emitted by `translate()` together with a termination rank of
+  the registry); per root read the observed recursion depths are compared with the model's rank
+  bound (`fuel`), the model's closed-form availability gap with what happened (`gap`), the
+  model's own rank computation with the translated one (`ranks`).  Exploration is budgeted in
+  work units, never by the clock.
 """
 import hashlib
 import time
@@ -47,12 +53,27 @@ RULE = ("Histories of 5-40 operations over three dataset kinds (two-channel dict
         "accesses to `temp`. A case is one history; it is non-trivial when at least one read was "
         "served from the cache after an edit and one was recomputed. distinct = distinct "
         "canonical histories. Plus the 3x64 emodulus combination cases (generic, zero-valued, "
-        "medium 'other'), each read on the root and through a child.")
+        "medium 'other'), each read on the root and through a child. Systematic cache-edit-read "
+        "triples per hierarchy level, incl. a temporary feature set for the FIRST time after "
+        "everything was cached (quick: all of those and all replacements via child levels for one "
+        "world + 4 sampled; thorough: all). Per root read / `in`: observed nesting depth of "
+        "is_available and __getitem__ vs the model's rank bound (`fuel`), and for emodulus / "
+        "crosstalk reads the model's closed-form availability gap vs 'available but raises' "
+        "(`gap`). The random-history phase is bounded by work units (judged operations: quick "
+        "1500, thorough 16000), not by the clock; wall-clock caps are safety limits only.")
 TRUSTED_BASE = [
     "modelled, not verified: md5 and util.obj2bytes (the hash is modelled as the structured "
     "list of what is fed to md5; byte-level concatenation collisions are outside the model)",
-    "hand-written model tables `declaredReads` / `reqFuncInfo` (Model/Anc.lean) are validated "
-    "dynamically by recording proxies in every scenario the harness executes",
+    "the source walker harness/c06_ast.py (path-insensitive `ast` walk over a compute method / "
+    "requirement function and the module-level helpers it passes the dataset to; anything it does "
+    "not understand marks the result incomplete): it supplies the read sets of the compute "
+    "methods (all but compute_ml_class today) and the keys accessed by the requirement "
+    "functions; cross-validated on every run by the recording proxies (observed accesses must "
+    "lie inside the extracted sets)",
+    "hand-written model tables that remain: guard kinds and returned features of `reqFuncInfo`, "
+    "`declaredReads` of methods with dynamic feature names (compute_ml_class), names of the "
+    "returned dict keys, `pathExcluded` (compute_emodulus touches `temp` only in scenario A) — "
+    "validated dynamically by recording proxies in every scenario the harness executes",
     "the numeric recipes themselves are parameters of the model (C05, C18)"]
 ASSUMPTIONS = [
     "set_temporary_feature is used with names registered as temporary features (or "
@@ -69,14 +90,54 @@ ASSUMPTIONS = [
     "exception when called directly, e.g. kestin-1978 for MC-PBS, herold-2017 at 0 degC, channel "
     "width 0) are counted as invalid_values, not as availability failures"]
 NOT_PROVED = [
-    "available_iff_runnable at full strength: false today (F07, F63: structural availability "
-    "vs. raising computation); proved under the guard NoRaise and, for emodulus, for the "
-    "non-contradictory combinations",
+    "available_iff_runnable at full strength: false today (F07, F63). Proved instead, over the "
+    "regenerated table: the exact decidable gap (emodGapS / ctcGapS) — outside it availability "
+    "<=> runnability, inside it available-but-raises — for all 64 key/temp patterns x {two known "
+    "media, 'other'} and all 512 crosstalk patterns x 3 features, for arbitrary values "
+    "(emodulus_gap_any_values, crosstalk_gap_any_values) and every recursion depth >= liveFuel; "
+    "for other registries only under the guard NoRaise",
     "numerical content of the recipes (C05/C18)",
-    "fuel: theorems hold for every fuel; that Python's recursion terminates is not proved"]
+    "termination: proved for the model (fuel_sufficient: availability, selection and values are "
+    "fuel-independent beyond featFuel along the regenerated rank table; a cyclic registry admits "
+    "no rank); that dclab's is_available / __getitem__ recurse only along the model's call "
+    "relation is correspondence (observed nesting depths <= the rank bound on every run)",
+    "read sets with dynamic feature names (compute_ml_class, has_ml_scores) cannot be extracted "
+    "from the source; the path condition of compute_emodulus (`temp` only in scenario A) is a "
+    "hand-written exclusion — both validated dynamically only"]
 
 NEV = 8
 IMG = (20, 28)
+
+
+class Budget:
+    """How much a run explores is decided by WORK UNITS (judged operations; an emodulus read
+    counts 4), not by the clock: the same seed explores the same cases on a busy and on an idle
+    machine.  Wall-clock limits are only generous safety caps against runaway runs (a NOTE is
+    recorded when one cuts the exploration short)."""
+
+    def __init__(self):
+        self.w0 = time.time()
+        self.units = 0
+
+    def wall(self):
+        return time.time() - self.w0
+
+
+#: work units of the random-history phase (quick / thorough); wall-clock safety caps [s] apply
+#: only to the open-ended parts — the sampled remainder of the triples and the random histories
+#: beyond a guaranteed minimum number — never to the systematic parts (combinations, corpus,
+#: stratified triples)
+HIST_UNITS = (1500, 16000)
+HIST_MIN = (40, 300)
+WALL_CAP_TRIPLES = (300, 500)
+WALL_CAP_HIST = (330, 690)
+
+
+def budget_of(ctx):
+    b = getattr(ctx, "c06_budget", None)
+    if b is None:
+        b = ctx.c06_budget = Budget()
+    return b
 TEMP_NAMES = ["tmpa", "tmpn", "ml_score_abc", "ml_score_abd"]
 READS = ["emodulus", "volume", "area_um", "area_ratio", "aspect", "deform", "time", "index",
          "fl1_max_ctc", "fl2_max_ctc", "fl3_max_ctc", "bright_avg", "bright_sd",
@@ -288,6 +349,9 @@ class Recorder:
         self.comp_reads = {}      # idx -> (set feats, set keys)
         self.comp_outs = {}       # idx -> set of returned keys
         self.hash_reads = {}      # idx -> (set feats accessed by getitem, set keys); per read
+        self.av_depth = self.av_max = 0   # nesting of AncillaryFeature.is_available (per window)
+        self.gi_depth = self.gi_max = 0   # nesting of RTDCBase.__getitem__ on the watched dataset
+        self.depth_ok = False             # is_available could be wrapped
         self.installed = False
 
     def install(self):
@@ -300,7 +364,8 @@ class Recorder:
             "gi": RTDCBase.__getitem__, "ct": RTDCBase.__contains__,
             "cg": ConfigurationDict.__getitem__, "cc": ConfigurationDict.__contains__,
             "cget": ConfigurationDict.get,
-            "comp": AncillaryFeature.compute, "hash": AncillaryFeature.hash}
+            "comp": AncillaryFeature.compute, "hash": AncillaryFeature.hash,
+            "isav": getattr(AncillaryFeature, "is_available", None)}
         o = self._orig
         self._classes = (RTDCBase, ConfigurationDict, AncillaryFeature)
 
@@ -317,10 +382,23 @@ class Recorder:
                 t[2].add(feat)
                 t[4].add(feat)
             rec.stack.append(("ignore",))
+            rec.gi_depth += 1
+            rec.gi_max = max(rec.gi_max, rec.gi_depth)
             try:
                 return o["gi"](self, feat)
             finally:
+                rec.gi_depth -= 1
                 rec.stack.pop()
+
+        def isav(self, ds, *a, **kw):
+            if rec.ds is not ds:
+                return o["isav"](self, ds, *a, **kw)
+            rec.av_depth += 1
+            rec.av_max = max(rec.av_max, rec.av_depth)
+            try:
+                return o["isav"](self, ds, *a, **kw)
+            finally:
+                rec.av_depth -= 1
 
         def ct(self, feat):
             if rec.ds is not self:
@@ -393,6 +471,9 @@ class Recorder:
         ConfigurationDict.get = cget
         AncillaryFeature.compute = comp
         AncillaryFeature.hash = hsh
+        if callable(o["isav"]):
+            AncillaryFeature.is_available = isav
+            self.depth_ok = True
         self.installed = True
 
     def uninstall(self):
@@ -407,6 +488,9 @@ class Recorder:
         ConfigurationDict.get = o["cget"]
         AncillaryFeature.compute = o["comp"]
         AncillaryFeature.hash = o["hash"]
+        if self.depth_ok:
+            AncillaryFeature.is_available = o["isav"]
+            self.depth_ok = False
         self.installed = False
 
     def begin(self, ds):
@@ -416,6 +500,8 @@ class Recorder:
         self.tokens = {}
         self.hash_reads = {}
         self.root_gets = []
+        self.av_depth = self.av_max = 0
+        self.gi_depth = self.gi_max = 0
 
     def end(self):
         self.ds = None
@@ -572,7 +658,7 @@ def known_class(ds, feat, exc):
     return None
 
 
-def emod_scenario(ds):
+def emod_scenario(ds, has_temp):
     """the documented precedence, decided by PRESENCE of keys / of the `temp` feature:
     'B' viscosity given for medium other/absent; 'C' known medium and temperature key;
     'A' known medium and `temp` feature; None: unavailable or contradictory (F07)"""
@@ -586,16 +672,16 @@ def emod_scenario(ds):
     if not other and not visc:
         if "emodulus temperature" in cc:
             return "C"
-        if "temp" in ds._events or "temp" in ds._usertemp:
+        if has_temp:        # the `temp` feature is plain data of the dataset
             return "A"
     return None
 
 
-def emod_oracle(ds):
+def emod_oracle(ds, has_temp):
     """`get_emodulus` called directly with the inputs the documented precedence selects
     (independent of `compute_emodulus`); None when no scenario applies"""
     from dclab.features.emodulus import get_emodulus
-    scen = emod_scenario(ds)
+    scen = emod_scenario(ds, has_temp)
     if scen is None:
         return None
     cc = ds.config["calculation"]
@@ -662,6 +748,7 @@ class Runner:
         self.known = {}
         self.nhit = self.nmiss = 0
         self.edited_since = False
+        self.fuel_asked = set()
         if emit:
             self._emit_init()
 
@@ -695,7 +782,7 @@ class Runner:
         elif op[0] == "delc":
             self.lines.append("delc %s:%s" % (op[1], op[2].replace(" ", "~")))
         elif op[0] == "sett":       # the data as they arrive at the root
-            self.lines.append("sett %s %s" % (op[1], self.dtok(self.ds._usertemp[op[1]])))
+            self.lines.append("sett %s %s" % (op[1], self.dtok(np.asarray(self.ds[op[1]]))))
         else:
             return
         self.expect.append(None)
@@ -743,9 +830,26 @@ class Runner:
         elif op[0] == "read":
             self._check_read(op[1], op[2])
 
+    def _emit_fuel(self, feat, how, av_max, gi_max):
+        """recursion depths observed on the root vs. the model's rank bound (once per feature,
+        kind of access and history)"""
+        if not (self.emit and self.record and REC.depth_ok) or (feat, how) in self.fuel_asked:
+            return
+        self.fuel_asked.add((feat, how))
+        self.lines.append(f"fuel {feat}")
+        self.expect.append(("fuel", how, av_max, gi_max))
+
     def _check_in(self, feat, lev):
         lv = self.h.ensure(lev)
-        got = safe(lambda: feat in lv)
+        measure = self.record and lev == 0
+        if measure:
+            REC.begin(self.ds)
+        try:
+            got = safe(lambda: feat in lv)
+        finally:
+            av_max = REC.av_max
+            if measure:
+                REC.end()
         fh, fl = self.fresh(lev)
         want = safe(lambda: feat in fl)
         fh.close()
@@ -755,6 +859,8 @@ class Runner:
         if self.emit:
             self.lines.append(f"in {feat}")
             self.expect.append(("in", got))
+            if measure:
+                self._emit_fuel(feat, "in", av_max, None)
 
     def _check_feats(self, lev):
         lv = self.h.ensure(lev)
@@ -776,7 +882,9 @@ class Runner:
         from dclab.rtdc_dataset.feat_anc_core import AncillaryFeature
         lv = self.h.ensure(lev)
         avail = safe(lambda: feat in lv)
-        is_base = feat in ds._events or feat in ds._usertemp
+        # plain data of the root (what the harness itself stored: no peeking into the dataset)
+        is_base = feat in self.world.feats or any(
+            o[0] == "sett" and o[1] == feat for o in self.done)
         sel = None
         if not is_base:
             try:
@@ -793,11 +901,13 @@ class Runner:
             hreads = dict(REC.hash_reads)
             hints = ",".join(f"{k}={v}" for k, v in sorted(REC.tokens.items()))
             root_read = feat in REC.root_gets
+            av_max, gi_max = REC.av_max, REC.gi_max
             REC.end()
         fh, fl = self.fresh(lev)
         want = outcome(lambda: fl[feat])
         self.ctx.stat("reads")
         self.ctx.stat(f"reads_level{lev}")
+        budget_of(self.ctx).units += 4 if feat in ("emodulus", "plug_e") else 1
         where = "" if lev == 0 else f" (hierarchy level {lev})"
         # (1) the property's oracle: long-lived == fresh
         if got != want:
@@ -807,13 +917,14 @@ class Runner:
         # (2) the documented emodulus precedence decides which inputs are used
         excused = False
         if feat in ("emodulus", "plug_e"):
-            scen = safe(lambda: emod_scenario(fh.root))
+            has_temp = "temp" in self.world.feats
+            scen = safe(lambda: emod_scenario(fh.root, has_temp))
             scen = scen[1] if scen[0] == "ok" else None
             # the independent numerical oracle is expensive (Delaunay of the LUT): only where
             # it decides something
             need = (feat == "emodulus" and lev == 0 and got[0] == "ok") or (
                 got[0] == "exc" and avail[1] is True and not known_class(ds, feat, got[1]))
-            orc = safe(lambda: emod_oracle(fh.root)) if (scen and need) else ("ok", None)
+            orc = safe(lambda: emod_oracle(fh.root, has_temp)) if (scen and need) else ("ok", None)
             orc = orc[1] if orc[0] == "ok" else None
             if scen is not None:
                 oval = orc[1] if orc is not None else ("none",)
@@ -870,6 +981,14 @@ class Runner:
                                     cover))
             else:       # the root's caches evolve as for a read
                 self.expect.append(("childread", got[0] == "ok"))
+            if lev == 0 and self.record:
+                self._emit_fuel(feat, "read", av_max, gi_max)
+            if lev == 0 and (feat == "emodulus" or feat.endswith("_max_ctc")) \
+                    and avail[0] == "ok":
+                # the model's closed-form availability gap (classes F07 / F63) vs. what happened
+                self.lines.append(f"gap {feat}")
+                self.expect.append(("skip",) if excused else
+                                   ("gap", avail[1] is True and got[0] == "exc"))
 
     def close(self):
         if self._fresh is not None:
@@ -990,7 +1109,7 @@ def run_history(ctx, world, reg, ops, emit=True, record=True, share_fresh=False)
 
 def shrink(ctx, world, reg, ops, cls):
     """minimal history that still shows a failure of class `cls` (cache, edit, read)"""
-    deadline = ctx.t0 + (128 if ctx.tier == "quick" else 870)
+    deadline = time.time() + (40 if ctx.tier == "quick" else 150)    # per shrink
 
     def fails(seq):
         if time.time() > deadline:
@@ -1054,7 +1173,8 @@ def combos_part(ctx, reg, lines, expect):
 def triples(world):
     """systematic 'cache, edit, read' histories: every feature is read on level L, ONE edit is
     made (a config key set to another value or deleted on the root; a temporary feature
-    replaced through level L), every feature is read on level L again"""
+    replaced, or set for the first time, through level L), every feature is read on level L
+    again"""
     pre = [("setc", "calculation", "emodulus lut", "LE-2D-FEM-19"),
            ("setc", "calculation", "emodulus medium", "CellCarrier"),
            ("setc", "calculation", "emodulus temperature", 23.0),
@@ -1074,12 +1194,20 @@ def triples(world):
             edits.append(("delc",) + k)
         for e in edits:
             out.append((lev, e, pre + temps + reads + [e] + reads))
+        # a temporary feature that is set for the FIRST time after everything was read (and
+        # cached) without it: what depends on it must become available and readable
+        for f in TEMP_NAMES:
+            if f == "tmpn" and lev > 0:
+                continue
+            e = ("sett", f, 0, lev)
+            others = [t for t in temps if t[1] != f]
+            out.append((lev, ("first",) + e, pre + others + reads + [e] + reads))
     return out
 
 
 def run(ctx):
     common.import_dclab()
-    t_start = time.time()
+    bud = budget_of(ctx)
     search = not ctx.lean_ok
     lines, expect = [], []
     seen_classes = {}
@@ -1094,7 +1222,7 @@ def run(ctx):
                 known["F07"] = (f"{len([1 for m, _ in f07 if m == 'generic'])} of 64 key "
                                 "combinations (known medium and 'emodulus viscosity' both set): "
                                 "'emodulus' in ds is True but ds['emodulus'] raises ValueError")
-            ctx.stat("seconds_combos", round(time.time() - t_start))
+            ctx.stat("units_combos", bud.units)
             w3 = World(ctx, "dict3", 0)
             r = run_history(ctx, w3, reg, [
                 ("setc", "calculation", "crosstalk fl21", 0.1),
@@ -1132,12 +1260,19 @@ def run(ctx):
                 # every replacement of a temporary feature through a child level of one world,
                 # plus a seeded sample of the other edits
                 wpick = ctx.rng.choice(["dict2", "h5"])
-                strat = [t for t in allt if t[2][0] == "sett" and t[1] > 0 and t[2][1] != "tmpn"
-                         and t[0].kind == wpick]
+                strat = [t for t in allt if t[0].kind == wpick and (
+                    (t[2][0] == "sett" and t[1] > 0 and t[2][1] != "tmpn")
+                    or t[2][0] == "first")]
                 rest = [t for t in allt if t not in strat]
                 allt = strat + ctx.rng.sample(rest, min(len(rest), ctx.n(4, 0)))
-            for w, lev, e, ops in allt:
-                if time.time() - t_start > (75 if ctx.tier == "quick" else 500):
+                must = len(strat)
+            else:       # the temporary-feature triples first: they always run
+                allt.sort(key=lambda t: not (t[2][0] in ("sett", "first")))
+                must = sum(1 for t in allt if t[2][0] in ("sett", "first"))
+            for i, (w, lev, e, ops) in enumerate(allt):
+                if i >= must and bud.wall() > WALL_CAP_TRIPLES[ctx.thorough]:
+                    ctx.note(f"C06: wall-clock cap reached after {i} of {len(allt)} triples "
+                             "(loaded machine)")
                     break
                 r = run_history(ctx, w, reg, ops, emit=False, record=False, share_fresh=True)
                 ctx.case(("triple", w.kind, lev, e), nontrivial=True)
@@ -1158,12 +1293,17 @@ def run(ctx):
                         {"part": "triples", "kind": w.kind, "variant": w.variant,
                          "class": cls, "ops": fmt_ops(small)})
 
-            ctx.stat("seconds_before_histories", round(time.time() - t_start))
+            ctx.stat("units_before_histories", bud.units)
+            units0 = bud.units
             nhist = ctx.n(200, 2000)
             worlds = {}
             for h in range(nhist):
-                if time.time() - t_start > (100 if ctx.tier == "quick" else 690):
-                    ctx.note(f"C06: time budget reached after {h} histories")
+                if bud.units - units0 >= HIST_UNITS[ctx.thorough] * (10 if search else 1):
+                    break
+                if h >= HIST_MIN[ctx.thorough] and bud.wall() > WALL_CAP_HIST[ctx.thorough]:
+                    ctx.note(f"C06: wall-clock cap reached after {h} histories, "
+                             f"{bud.units - units0} of {HIST_UNITS[ctx.thorough]} work units "
+                             "(loaded machine)")
                     break
                 if search and h >= 60 and sum(1 for k in seen_classes if k[0] == "stale") >= 3:
                     break
@@ -1217,9 +1357,9 @@ def run(ctx):
             return
         if diffs or bad_reads:
             # only the mirror differs: extended failing-input search on the implementation
-            budget = 118 if ctx.tier == "quick" else 850
+            stop = time.time() + (120 if ctx.tier == "quick" else 600)
             h = 0
-            while time.time() - ctx.t0 < budget and h < 10 * nhist:
+            while time.time() < stop and h < 10 * nhist:
                 h += 1
                 kind = ctx.rng.choice(["dict2", "dict3", "h5"])
                 variant = ctx.rng.randrange(4)
@@ -1256,9 +1396,20 @@ def compare_model(ctx, lines, expect, ncore):
     """run the Lean model once over all lines; returns (differences, reads outside the
     model's declaredReads)"""
     decl_lines = [f"decl {i}" for i in range(ncore + len(PLUGS))]
-    out = ctx.lean("C06", lines + ["reset"] + Registered.plugin_lines(None) + decl_lines)
-    answers, decl = out[:len(lines)], out[len(lines) + 1 + len(PLUGS):]
+    out = ctx.lean("C06", lines + ["reset", "ranks"] + Registered.plugin_lines(None) + decl_lines)
+    answers, decl = out[:len(lines)], out[len(lines) + 2 + len(PLUGS):]
     diffs = []
+    # the rank table computed inside the model vs. the one translate() derived from the registry
+    from .c06_table import rank_table
+    try:
+        want_ranks = sorted({f"{n}:{p}:{k}" for n, p, k in rank_table(registry_rows()[:ncore])})
+    except Exception as e:  # noqa
+        want_ranks = None
+        ctx.note(f"C06: rank table of the registry not comparable ({type(e).__name__})")
+    have_ranks = sorted(set(out[len(lines) + 1].split(",")))
+    if want_ranks is not None and want_ranks != have_ranks:
+        diffs.append(("ranks", want_ranks[:8], out[len(lines) + 1][:300]))
+    ctx.stat("rank_entries", len(have_ranks))
     for ln, ex, got in zip(lines, expect, answers):
         if ex is None:
             if got != "ok":
@@ -1276,6 +1427,30 @@ def compare_model(ctx, lines, expect, ncore):
                 diffs.append((ln, ",".join(ex[1]), got))
         elif ex[0] == "skip":
             continue
+        elif ex[0] == "fuel":
+            f = dict(p.split("=", 1) for p in got.split())
+            k, bound = int(f["fuel"]), int(f["bound"])
+            ctx.stat("fuel_checks")
+            ctx.stat("fuel_max_needed", 0)
+            if f["ranked"] != "1" or f["stable"] != "1":
+                diffs.append((ln, "ranked=1 stable=1", got))
+            elif ex[1] == "in" and ex[2] > k:
+                diffs.append((ln, f"is_available nests {ex[2]} deep in 'in'", got))
+            elif ex[1] == "read" and (ex[2] > bound or ex[3] > k + 1):
+                diffs.append((ln, f"is_available nests {ex[2]} deep, __getitem__ {ex[3]} deep "
+                                  "in a read", got))
+            else:
+                if ex[1] == "in" and ex[2] == k and k > 0:
+                    ctx.stat("fuel_bound_attained")
+                ctx.stats["fuel_max_needed"] = max(ctx.stats["fuel_max_needed"], ex[2])
+        elif ex[0] == "gap":
+            f = dict(p.split("=", 1) for p in got.split())
+            mg = f["gap"] == "1" and f["avail"] == "1"
+            ctx.stat("gap_checks")
+            if mg:
+                ctx.stat("gap_inside")
+            if mg != ex[1]:
+                diffs.append((ln, f"available-but-raises={ex[1]}", got))
         elif ex[0] == "childread":
             if ex[1] and got.split()[0] != "some":
                 diffs.append((ln, ex[1], got))
@@ -1304,6 +1479,7 @@ def compare_model(ctx, lines, expect, ncore):
         dO = set(f["outs"].split(","))
         aF, aC = REC.comp_reads.get(i, (set(), set()))
         ctx.stat("recipes_observed_computing", 1 if i in REC.comp_reads else 0)
+        ctx.stat("recipes_reads_from_source", 1 if f.get("src") == "ast" else 0)
         if not aF <= dF or not aC <= dC or not REC.comp_outs.get(i, set()) <= dO:
             bad_reads.append((i, sorted(aF - dF), sorted(aC - dC),
                               sorted(REC.comp_outs.get(i, set()) - dO)))
